@@ -127,7 +127,15 @@ func AddFakeWorld(src *choice.Src, c *Cfg, dotPkg bool) {
 			s.Getter = "Get" + goIdent(s.Name) + "X"
 		case 3:
 			s.Ctor = r + ".Make"
-			s.Fields = []Field{{"Opt", Arg{Kind: "value", S: choice.Pick(src, "fake.ref2", refs) + ".Option"}}}
+			// several fields (and call arguments) that each bring a package not used before
+			for _, fn := range []string{"Opt", "Alt", "Zed", "Beta"} {
+				if src.Chance("fake.field", 2, 3) {
+					s.Fields = append(s.Fields, Field{fn, Arg{Kind: "value", S: choice.Pick(src, "fake.ref2", refs) + "." + fn + "ion"}})
+				}
+			}
+			if src.Bool("fake.call") {
+				s.Calls = append(s.Calls, Call{Method: "Use", Args: []Arg{{Kind: "value", S: choice.Pick(src, "fake.ref3", refs) + ".X"}, {Kind: "value", S: choice.Pick(src, "fake.ref3", refs) + ".Y"}}})
+			}
 		}
 		c.Services = append(c.Services, s)
 	}
